@@ -397,3 +397,21 @@ def run(repo, rep, tier):  # noqa: F811 -- round-6 remedies (core/round6.py)
 _ADDR6C = '  Borrowed: R13.12, R13.13, R07.7.'
 EXPLANATION += _ADDR6C
 LEVEL_TEXT += _ADDR6C
+
+
+_run_before_r7df = run
+
+
+def run(repo, rep, tier):  # noqa: F811 -- round 7: CodeBuilder.dataclass_fields evaluated on inheritance shapes (typepreds.py)
+    _run_before_r7df(repo, rep, tier)
+    if getattr(rep, "borrowed", False):
+        return
+    from ..core import typepreds as _tp7df
+    _tp7df.builder_method_cases(repo, rep, "R07.9")
+
+
+_ADDR7DF = (" R07.9: CodeBuilder.dataclass_fields is interpreted from its own source (type-level evaluator, stub builder) on six inheritance shapes "
+            "-- two dataclass bases, an own Field, a bare re-annotation, a finished dataclass, a diamond, no ancestor -- and must return, per "
+            "name, the Field object of the nearest declaring ancestor, as dataclasses itself does.")
+EXPLANATION += _ADDR7DF
+LEVEL_TEXT += _ADDR7DF
